@@ -9,6 +9,7 @@ import (
 	"os"
 	"path/filepath"
 	"sort"
+	"strconv"
 	"strings"
 
 	"verif/internal/drv"
@@ -581,8 +582,9 @@ func reflExtra(m *drv.Module) error {
 		dir := filepath.Join(m.GenDir, d)
 		// drv.Registry's zz_verif.go imports vdriver even when the package has nothing to register
 		zp := filepath.Join(dir, "zz_verif.go")
-		if b, err := os.ReadFile(zp); err == nil && !bytes.Contains(b, []byte("vdriver.Register")) {
-			os.WriteFile(zp, append(b, []byte("\nvar _ = vdriver.Hooks\n")...), 0o644)
+		zsrc, zerr := os.ReadFile(zp)
+		if zerr == nil && !bytes.Contains(zsrc, []byte("vdriver.Register")) {
+			os.WriteFile(zp, append(zsrc, []byte("\nvar _ = vdriver.Hooks\n")...), 0o644)
 		}
 		ents, err := os.ReadDir(dir)
 		if err != nil {
@@ -592,6 +594,8 @@ func reflExtra(m *drv.Module) error {
 		pkgName := ""
 		intTypes := map[string]bool{}
 		stringers := map[string]bool{}
+		structTypes := map[string]bool{}
+		writers := map[string]string{} // struct type -> the name its Write passes to WriteStructBegin
 		var fdFuncs []string
 		for _, e := range ents {
 			if e.IsDir() || !strings.HasSuffix(e.Name(), ".go") || strings.HasPrefix(e.Name(), "zz_verif") {
@@ -613,6 +617,9 @@ func reflExtra(m *drv.Module) error {
 						if id, ok := ts.Type.(*ast.Ident); ok && (id.Name == "int64" || id.Name == "int32") {
 							intTypes[ts.Name.Name] = true
 						}
+						if _, ok := ts.Type.(*ast.StructType); ok {
+							structTypes[ts.Name.Name] = true
+						}
 					}
 				case *ast.FuncDecl:
 					if x.Recv == nil {
@@ -624,6 +631,26 @@ func reflExtra(m *drv.Module) error {
 					if x.Name.Name == "String" && len(x.Recv.List) == 1 {
 						if id, ok := x.Recv.List[0].Type.(*ast.Ident); ok {
 							stringers[id.Name] = true
+						}
+					}
+					if x.Name.Name == "Write" && len(x.Recv.List) == 1 && x.Body != nil {
+						if st, ok := x.Recv.List[0].Type.(*ast.StarExpr); ok {
+							if id, ok := st.X.(*ast.Ident); ok {
+								ast.Inspect(x.Body, func(n ast.Node) bool {
+									c, ok := n.(*ast.CallExpr)
+									if !ok {
+										return true
+									}
+									if sel, ok := c.Fun.(*ast.SelectorExpr); ok && sel.Sel.Name == "WriteStructBegin" && len(c.Args) == 1 {
+										if lit, ok := c.Args[0].(*ast.BasicLit); ok && lit.Kind == token.STRING {
+											if s, err := strconv.Unquote(lit.Value); err == nil {
+												writers[id.Name] = s
+											}
+										}
+									}
+									return true
+								})
+							}
 						}
 					}
 				}
@@ -647,6 +674,18 @@ func reflExtra(m *drv.Module) error {
 		}
 		for _, en := range enums {
 			fmt.Fprintf(&b, "\tvdriver.RegisterEnum(%q, %q, %s(0))\n", d, en, en)
+		}
+		// drv.Registry leaves out a struct without tagged fields that is not empty in Go
+		// (an empty IDL struct under keep_unknown_fields / with_field_mask): register it here
+		var missing []string
+		for n := range structTypes {
+			if writers[n] != "" && !bytes.Contains(zsrc, []byte(fmt.Sprintf("vdriver.RegisterType(%q, %q,", d, n))) {
+				missing = append(missing, n)
+			}
+		}
+		sort.Strings(missing)
+		for _, n := range missing {
+			fmt.Fprintf(&b, "\tvdriver.RegisterType(%q, %q, %q, func() interface{} { return &%s{} })\n", d, n, writers[n], n)
 		}
 		b.WriteString("}\n")
 		if err := os.WriteFile(filepath.Join(dir, "zz_verif_refl.go"), []byte(b.String()), 0o644); err != nil {
